@@ -117,3 +117,73 @@ class Conversion(Harness):
 
 
 HARNESSES = [Conversion()]
+
+# ---- deductive: the admission test of the converter (when may the next action join the joint action under construction) --------------
+# A `True` answer of _validate_well_defined_joint_action implies: the executing agent's slot still holds a nop (at most one action per
+# agent per step, slot = position of the agent in the given agent list), with the concurrency constraint on no object is shared with
+# the actions already in the step, and the action is applicable in the step's pre-state.  (Interference of effects is delegated to
+# _validate_well_defined_action_insertion, which stays bounded — see the known finding.)
+import z3 as _z3
+from pyvc.core import Val as _Val
+from pyvc.sorts import I as _I, Q as _Q, B as _B
+from contracts.c16 import _call_app as _c16_call_app, _h_op_applicable as _c16_op_applicable
+_PC = "multi_agent.single_agent_plan_converter:PlanConverter."
+_OPK = "models.pddl_operator:Operator."
+_jparams = _z3.Function("joint_parameters_of", _I, _Q)
+
+
+def _h_call_applicable(interp, st, a):
+    """call_applicable(domain, call, state): the schema registered under the call's name, with the call's arguments, is applicable"""
+    dom, call, state = a
+    name = interp.read_field(st, call, "ActionCall", "name")
+    params = interp.read_field(st, _Val(interp.read_field(st, call, "ActionCall", "parameters").t, ("ref", "list_str")), "list_str", "items")
+    acts = interp.read_field(st, dom, "Domain", "actions")
+    amap = interp.read_field(st, _Val(acts.t, ("ref", "dict_str_ref")), "dict_str_ref", "map")
+    return _Val(_c16_call_app(_z3.Select(amap.t, name.t), params.t, state.t), "bool")
+
+
+def _h_index_of(interp, st, a):
+    items = interp.seq_of(st, a[0])
+    return _Val(_z3.IndexOf(items.t, _z3.Unit(a[1].t), _z3.IntVal(0)), "int")
+
+
+_C15_HOOKS = {"op_applicable": _c16_op_applicable, "call_applicable": _h_call_applicable, "index_of": _h_index_of,
+              "joint_parameters_of": lambda interp, st, a: _Val(_jparams(a[0].t), ("seq", "str"))}
+_LS = ("ref", "list_str")
+_SLOT = "seq(combined_actions)[index_of(agent_names, next_executing_agent)]"
+CONTRACTS[_OPK + "ground"] = dict(prop="C03", assumed=True, params={"self": ("ref", "Operator")}, returns="none", ensures=["self.grounded"],
+                                  raises={"KeyError": "True"},
+                                  modifies=["Operator.grounded_preconditions[self]", "Operator.grounded_effects[self]", "Operator.grounded[self]"])
+CONTRACTS[_OPK + "is_applicable"] = dict(
+    prop="C02", assumed=True, params={"self": ("ref", "Operator"), "state": ("ref", "State")}, returns="bool",
+    ensures=["result == op_applicable(self, state)"], raises={"KeyError": "True"},
+    modifies=["Operator.grounded_preconditions[self]", "Operator.grounded_effects[self]", "Operator.grounded[self]"], spec_hooks=_C15_HOOKS)
+CONTRACTS["models.action_call:JointActionCall.joint_parameters"] = dict(
+    prop="C15", assumed=True, params={"self": ("ref", "JointActionCall")}, returns=("seq", "str"), allocates=False,
+    ensures=["result == joint_parameters_of(self.actions)"], raises={}, modifies=[], spec_hooks=_C15_HOOKS)
+CONTRACTS[_PC + "_validate_well_defined_action_insertion"] = dict(
+    prop="C15", assumed=True, params={"self": ("ref", "PlanConverter"), "combined_actions": ("ref", "list_ActionCall"), "next_action": ("ref", "Operator")},
+    returns="bool", ensures=[], raises={"KeyError": "True"}, modifies=[])
+CONTRACTS[_PC + "_validate_well_defined_joint_action"] = dict(
+    prop="C15",
+    params={"self": ("ref", "PlanConverter"), "current_state": ("ref", "State"), "combined_actions": ("ref", "list_ActionCall"),
+            "next_action": ("ref", "ActionCall"), "next_executing_agent": "str", "agent_names": _LS, "should_validate_concurrency_constraint": "bool"},
+    returns="bool", dict_values={"dict_str_ref": "Action"},
+    requires=["allocated(self)", "allocated(self.ma_domain)", "allocated(self.ma_domain.actions)", "allocated(current_state)", "allocated(combined_actions)",
+              "allocated(next_action)", "allocated(next_action.parameters)", "allocated(agent_names)"],
+    ensures=[
+        # admitted only into a slot that still holds a nop: the slot is the position of the executing agent in the given agent list
+        f"implies(result, next_executing_agent in seq(agent_names) and index_of(agent_names, next_executing_agent) < len(combined_actions) and {_SLOT}.name == 'nop')",
+        # with the concurrency constraint on, no object of the new action is used by the actions already in the step
+        "implies(result and should_validate_concurrency_constraint, forall_str(lambda x: not (x in joint_parameters_of(combined_actions) and x in seq(next_action.parameters))))",
+        # admitted only if applicable in the step's pre-state
+        "implies(result, call_applicable(self.ma_domain, next_action, current_state))",
+        # the inputs are not written
+        "seq(combined_actions) == old(seq(combined_actions))", "seq(agent_names) == old(seq(agent_names))", "next_action.name == old(next_action.name)"],
+    raises={"ValueError": "next_executing_agent not in seq(agent_names)", "IndexError": "index_of(agent_names, next_executing_agent) >= len(combined_actions)",
+            "KeyError": "True"},
+    modifies=[],
+    calls={"Operator.ground": _OPK + "ground", "Operator.is_applicable": _OPK + "is_applicable",
+           "JointActionCall.joint_parameters": "models.action_call:JointActionCall.joint_parameters",
+           "self._validate_well_defined_action_insertion": _PC + "_validate_well_defined_action_insertion"},
+    spec_hooks=_C15_HOOKS)
